@@ -298,6 +298,7 @@ deriving DecidableEq, Repr
 inductive Out
   | op (res : OpRes) (stat : Int)
   | tick (evs : List Ev)
+deriving DecidableEq
 
 /-- context of a history: registry contents, the base IR the adaptor holds (`root_`), and whether the
 C05 repair is in (see `OomdModel.Engine`) -/
